@@ -119,12 +119,17 @@ fn escaped_expectation_ascii(line: &[u8]) -> String {
 fn escaped_printable_unicode(bytes: &[u8]) -> String {
     let mut seq = [0; 4];
     if let Ok(s) = String::from_utf8(bytes.to_vec()) {
+        // once anything is escaped the backslash is the escape character and
+        // must be escaped itself (as in the ASCII rendering)
+        let escape_backslash = s.chars().any(|c| c.is_other());
         return s
             .chars()
             .map(|c| {
                 if c.is_other() {
                     let raw = c.encode_utf8(&mut seq).as_bytes();
                     escaped_printable_ascii(raw)
+                } else if c == '\\' && escape_backslash {
+                    "\\\\".to_string()
                 } else {
                     c.to_string()
                 }
